@@ -9,6 +9,7 @@ from typing import Any, Dict, List, Optional
 import pytz
 from hypothesis import strategies as st
 
+from taskiq.abc.schedule_source import ScheduleSource
 from taskiq.scheduler.scheduled_task import ScheduledTask
 
 from vt.core.engine import Outcome, Part
@@ -20,7 +21,7 @@ RULE = (
     "Two generated sub-spaces. (1) 'instants': Hypothesis draws a cron expression from a numeric five-field grammar "
     "(*, */n, values, a-b, a-b/s, comma lists; DOW 0-6), an offset (none | timedelta within +-26 h with second and "
     "microsecond resolution | one of 12 IANA zones incl. 30/45-minute and DST-shifting ones) and an instant 2015-2035 "
-    "with microsecond resolution, biased so that the expression's minute/hour/day fields contain the instant's own "
+    "with microsecond resolution; the schedule is a cron string on a ScheduledTask or is created through the public schedule_by_cron(CronSpec(...)) with numeric fields as str or int (lowest field values 0/1 made frequent); biased so that the expression's minute/hour/day fields contain the instant's own "
     "local values in ~half of the cases. (2) 'day_sweeps': expression x zone/offset x a day (every DST-transition day "
     "of the zone in 2015-2035 +-1 day, or a drawn day); ALL 1440 minutes of that UTC day are evaluated, each at a "
     "drawn second/microsecond. Oracle: an independent crontab(5) matcher applied to the local time computed with "
@@ -52,6 +53,11 @@ def transitions(zone: str) -> List[int]:
         if 2015 <= t.year <= 2035:
             out.append(clock.to_us(t.replace(tzinfo=clock.UTC)))
     return out
+
+
+# how the schedule is created: a cron string on a ScheduledTask, or the public schedule_by_cron() with a CronSpec whose
+# purely numeric fields are passed as str or as int
+VIA = st.sampled_from(["str", "str", "spec_str", "spec_int"])
 
 
 def field(lo: int, hi: int) -> Any:
@@ -106,7 +112,9 @@ def bias_expr(d: Dict[str, Any]) -> Dict[str, Any]:
             f[k] = "*"
         elif d["pin"][k] == 2:
             f[k] = (f[k] + "," if f[k] != "*" and not f[k].startswith("*/") else "") + str(vals[k])
-    return {"expr": " ".join(f), "offset": d["offset"], "t_us": d["t_us"], "alt": d["alt"]}
+        elif d["pin"][k] == 3:
+            f[k] = str(RANGES[k][0])          # the lowest value of the field on its own ("0 * * * *", "0 0 * * 0", ...)
+    return {"expr": " ".join(f), "offset": d["offset"], "t_us": d["t_us"], "alt": d["alt"], "via": d["via"]}
 
 
 def instants() -> Any:
@@ -117,8 +125,9 @@ def instants() -> Any:
                                    "delta": st.one_of(st.integers(-DAY_US, DAY_US), st.integers(-2 * 3600 * 10**6, 2 * 3600 * 10**6))})
     return st.fixed_dictionaries({
         "fields": st.tuples(*[field(lo, hi) for lo, hi in RANGES]),
-        "pin": st.tuples(*[st.sampled_from([0, 1, 1, 2, 2]) for _ in range(5)]),
+        "pin": st.tuples(*[st.sampled_from([0, 1, 1, 2, 2, 3]) for _ in range(5)]),
         "offset": offset(),
+        "via": VIA,
         "t_us": st.one_of(t_any, t_dst),
         "alt": st.tuples(st.integers(0, 59), st.integers(0, 999_999)),
     }).map(bias_expr)
@@ -138,12 +147,17 @@ def sweeps() -> Any:
         for k in (2, 3, 4):
             if d["star"][k - 2]:
                 f[k] = "*"
-        return {"sweep": True, "expr": " ".join(f), "offset": off, "day_us": day, "sec": d["sec"], "us": d["us"]}
+        for k in range(5):
+            if d["low"][k]:
+                f[k] = str(RANGES[k][0])
+        return {"sweep": True, "expr": " ".join(f), "offset": off, "day_us": day, "sec": d["sec"], "us": d["us"], "via": d["via"]}
 
     return st.fixed_dictionaries({
         "fields": st.tuples(*[field(lo, hi) for lo, hi in RANGES]),
         "star": st.tuples(st.booleans(), st.sampled_from([True, True, False]), st.booleans()),
         "offset": offset(),
+        "via": VIA,
+        "low": st.tuples(*[st.sampled_from([False, False, False, True]) for _ in range(5)]),
         "day_us": st.integers(Y0, Y1), "use_dst": st.sampled_from([True, True, False]),
         "k": st.integers(0, 100), "shift": st.sampled_from([-1, 0, 0, 1]),
         "sec": st.integers(0, 59), "us": st.integers(0, 999_999),
@@ -158,10 +172,42 @@ def parts(tier: str) -> List[Part]:
             Part("day_sweeps", "given", shards=6, examples=150, strategy=sweeps, soft_deadline_s=100)]
 
 
-def _mk_task(expr: str, off: Optional[Dict[str, Any]]) -> ScheduledTask:
+class _Collect(ScheduleSource):
+    def __init__(self) -> None:
+        self.added: List[ScheduledTask] = []
+
+    async def get_schedules(self) -> List[ScheduledTask]:
+        return list(self.added)
+
+    async def add_schedule(self, schedule: ScheduledTask) -> None:
+        self.added.append(schedule)
+
+
+@functools.lru_cache(maxsize=None)
+def _broker() -> Any:
+    from vt.harness.sched import KickBroker
+
+    return KickBroker(lambda: 0, [0.0], set())
+
+
+def _mk_task(expr: str, off: Optional[Dict[str, Any]], via: str = "str") -> ScheduledTask:
     co: Any = None
     if off is not None:
         co = dtm.timedelta(microseconds=off["td_us"]) if "td_us" in off else off["zone"]
+    if via != "str":
+        from taskiq.kicker import AsyncKicker
+        from taskiq.scheduler.scheduled_task import CronSpec
+
+        f = [int(x) if via == "spec_int" and x.isdigit() else x for x in expr.split()]
+        spec = CronSpec(minutes=f[0], hours=f[1], days=f[2], months=f[3], weekdays=f[4], offset=co)
+        src = _Collect()
+        coro = AsyncKicker("t", _broker(), {}).schedule_by_cron(src, spec)
+        try:
+            coro.send(None)
+            raise RuntimeError("schedule_by_cron suspended on a source that never waits")
+        except StopIteration:
+            pass
+        return src.added[0]
     return ScheduledTask(task_name="t", labels={}, args=[], kwargs={}, cron=expr, cron_offset=co)
 
 
@@ -200,7 +246,9 @@ def run_case(case: Dict[str, Any]) -> Outcome:
     clock.install()
     try:
         expr, off = case["expr"], case["offset"]
-        task = _mk_task(expr, off)
+        via = case.get("via", "str")
+        task = _mk_task(expr, off, via)
+        how = "" if via == "str" else f" (scheduled with schedule_by_cron(CronSpec(...)), numeric fields as {'int' if via == 'spec_int' else 'str'}; stored cron {task.cron!r})"
         if case.get("sweep"):
             out.clauses_checked = ["C13.a"]
             due = notdue = skipped = 0
@@ -215,7 +263,7 @@ def run_case(case: Dict[str, Any]) -> Outcome:
                 got = _eval(task, us)
                 if got != exp or type(got) is not type(exp):
                     out.add("C13.a", f"cron {expr!r} offset={off} at UTC {clock.from_us(us).isoformat()} (local "
-                                     f"{loc.isoformat()}): get_task_delay={got!r}, expected {exp!r}")
+                                     f"{loc.isoformat()}): get_task_delay={got!r}, expected {exp!r}{how}")
                     break
                 if exp == 0:
                     due += 1
@@ -239,7 +287,7 @@ def run_case(case: Dict[str, Any]) -> Outcome:
         got = _eval(task, us)
         if got != exp or type(got) is not type(exp):
             out.add("C13.a", f"cron {expr!r} offset={off} at UTC {clock.from_us(us).isoformat()} (local {loc.isoformat()}): "
-                             f"get_task_delay={got!r}, expected {exp!r}")
+                             f"get_task_delay={got!r}, expected {exp!r}{how}")
         # metamorphic: same minute, other second / microsecond.  The *local* minute must be the same too
         # (sub-minute timedelta offsets shift the local minute boundary), so compare within the local minute.
         base_local_min = loc.replace(second=0, microsecond=0)
@@ -253,7 +301,7 @@ def run_case(case: Dict[str, Any]) -> Outcome:
                                  f"{clock.from_us(us).isoformat()} vs {got2!r} at {clock.from_us(us2).isoformat()}")
         cl = _nontrivial(us, off, loc)
         out.nontrivial = bool(cl)
-        out.classes = cl + ["due" if exp == 0 else "not_due"] + (["zone"] if off and "zone" in off else ["timedelta"] if off else ["no_offset"])
+        out.classes = cl + ["due" if exp == 0 else "not_due"] + (["zone"] if off and "zone" in off else ["timedelta"] if off else ["no_offset"]) + ["via=" + via]
         out.counters = {"due": int(exp == 0), "not_due": int(exp is None)}
         out.trace = {"local": loc.isoformat(), "expected": exp, "got": got}
         return out
